@@ -457,6 +457,17 @@ func (e *Engine) lookup(st *State, in *ssa.Lookup) []*State {
 			}
 			return outs
 		}
+		if in.CommaOk {
+			// present: one of the table's values; absent: the zero value
+			var vs []int64
+			for _, v := range m {
+				vs = append(vs, v)
+			}
+			a, b := st.clone(), st
+			set(a, intVal(vs...), boolVal(true))
+			set(b, intVal(0), boolVal(false))
+			return []*State{a, b}
+		}
 		vals := []int64{0}
 		for _, v := range m {
 			vals = append(vals, v)
